@@ -51,6 +51,8 @@ func C15Cells() [][3]string {
 // staller opens a transport-level connection to the server endpoint the way a
 // client of that kind would, and then misbehaves at the chosen point.
 func startStaller(r *Run, w *World, id int, ep, point, behaviour string, goDark func(ip string)) {
+	// which garbage: varies with the staller and with the pass over the cell table
+	garbage := c15Garbage[(id+r.Idx/len(C15Cells()))%len(c15Garbage)]
 	stallerIP := fmt.Sprintf("10.0.1.%d", 10+id)
 	port := CarrierPort(ep)
 	n := r.Net
@@ -112,14 +114,14 @@ func startStaller(r *Run, w *World, id int, ep, point, behaviour string, goDark 
 		if point == "tls-hello" {
 			// the beginning of a TLS record that never completes
 			conn.Write([]byte{0x16, 0x03, 0x01, 0x02, 0x00, 0x01, 0x00, 0x01, 0xfc, 0x03, 0x03, 0x11, 0x22})
-			misbehave(conn, behaviour, nil)
+			misbehave(conn, behaviour, garbage, nil)
 			return
 		}
 		if (ep == "ws" || ep == "wss") && point != "connect" {
 			if point == "partial-line" && behaviour != "garbage" {
 				// stall inside the HTTP request itself
 				conn.Write([]byte("GET /ws/all HTTP/1.1\r\nHost: x\r\nUpgr"))
-				misbehave(conn, behaviour, nil)
+				misbehave(conn, behaviour, garbage, nil)
 				return
 			}
 			d := websocket.Dialer{NetDialContext: nil, NetDial: func(network, addr string) (net.Conn, error) { return conn, nil }, HandshakeTimeout: 45 * time.Second}
@@ -135,7 +137,7 @@ func startStaller(r *Run, w *World, id int, ep, point, behaviour string, goDark 
 			// nothing, for ever
 		case "partial-line":
 			conn.Write([]byte(announce[:17]))
-			misbehave(conn, behaviour, []byte(announce[17:40]))
+			misbehave(conn, behaviour, garbage, []byte(announce[17:40]))
 		case "between":
 			conn.Write([]byte(announce))
 			if goDark != nil {
@@ -145,7 +147,7 @@ func startStaller(r *Run, w *World, id int, ep, point, behaviour string, goDark 
 			}
 			buf := make([]byte, 4096)
 			conn.Read(buf)
-			misbehave(conn, behaviour, []byte(upgradeReq[:20]))
+			misbehave(conn, behaviour, garbage, []byte(upgradeReq[:20]))
 		case "starttls-hello":
 			// asks for the StartTLS upgrade the server offers, gets its 101, and stalls inside the TLS hello
 			conn.Write([]byte(announce))
@@ -154,7 +156,7 @@ func startStaller(r *Run, w *World, id int, ep, point, behaviour string, goDark 
 			conn.Write([]byte(strings.Replace(upgradeReq, "User-Agent:", "Security: StartTLS\r\nUser-Agent:", 1)))
 			conn.Read(buf)
 			conn.Write([]byte{0x16, 0x03, 0x01, 0x02, 0x00, 0x01, 0x00, 0x01, 0xfc, 0x03, 0x03})
-			misbehave(conn, behaviour, []byte{0x11, 0x22, 0x33, 0x44, 0x55, 0x66, 0x77, 0x88, 0x99, 0xaa, 0xbb, 0xcc})
+			misbehave(conn, behaviour, garbage, []byte{0x11, 0x22, 0x33, 0x44, 0x55, 0x66, 0x77, 0x88, 0x99, 0xaa, 0xbb, 0xcc})
 		case "after-upgrade":
 			conn.Write([]byte(announce))
 			buf := make([]byte, 4096)
@@ -180,7 +182,11 @@ func (w *wsStream) Read(p []byte) (int, error) {
 }
 func (w *wsStream) SetDeadline(t time.Time) error { return nil }
 
-func misbehave(conn net.Conn, behaviour string, rest []byte) {
+// c15Garbage: what a garbage-sending peer says - random bytes, or text that looks like some other protocol
+// (complete header blocks, request lines with too few or too many words)
+var c15Garbage = []string{"", "GET / HTTP/1.1\r\nHost: x\r\n\r\n", "GET /\r\n\r\n", "HELO x\r\n\r\n", "X-SOCKETACE /\r\n\r\n", "\r\n\r\n", "X-SOCKETACE\r\n\r\n", "SSH-2.0-OpenSSH_9.6\r\n", "a b c d e f\r\nk: v\r\n\r\n", " / \r\n\r\n"}
+
+func misbehave(conn net.Conn, behaviour string, garbage string, rest []byte) {
 	switch behaviour {
 	case "silent":
 	case "drip":
@@ -193,6 +199,9 @@ func misbehave(conn net.Conn, behaviour string, rest []byte) {
 	case "garbage":
 		g := make([]byte, 64)
 		prfFill(0x6a7b, 0, g)
+		if garbage != "" {
+			g = []byte(garbage)
+		}
 		conn.Write(g)
 	}
 }
